@@ -308,6 +308,38 @@ impl Pairs {
                 }
             }
         }
+        // the convenience wrapper vcorr(other, min_periods: Option, method): omitted min_periods = len / 2
+        let len = a.len();
+        for mp in std::iter::once(None).chain((0..=len + 1).map(Some)) {
+            let model = agg_model(AggOp::VCorr(mp.unwrap_or(len / 2)), &a, &b);
+            let runs = [("f64", wrapper::vcorr_f64(&a, &b, mp)), ("Option<f64>", wrapper::vcorr_opt(&a, &b, mp))];
+            for (tname, got) in runs {
+                ctx.eval(name, outcome_hash(&got));
+                if let Some((exp, g)) = judge(&got, &model, Cmp::Tol) {
+                    ctx.violation(Violation {
+                        entry: "vcorr (wrapper, Pearson)".into(),
+                        finding: None,
+                        size: len * 100,
+                        case: json!({"family": name, "word": word, "first": json_word(&a), "second_or_mask": json_word(&b), "min_periods": mp_json(mp), "elem": tname}),
+                        expected: exp,
+                        got: g,
+                    });
+                }
+            }
+        }
+    }
+}
+mod wrapper {
+    use mc_checks::*;
+    use tevec::agg::CorrMethod;
+    use tevec::prelude::*;
+    pub fn vcorr_f64(a: &[X], b: &[X], mp: Option<usize>) -> Outcome<Vec<Cell>> {
+        let (va, vb): (Vec<f64>, Vec<f64>) = (enc_vec(a), enc_vec(b));
+        catch(|| vec![Cell::f(va.vcorr(&vb, mp, CorrMethod::Pearson))])
+    }
+    pub fn vcorr_opt(a: &[X], b: &[X], mp: Option<usize>) -> Outcome<Vec<Cell>> {
+        let (va, vb): (Vec<Option<f64>>, Vec<Option<f64>>) = (enc_vec(a), enc_vec(b));
+        catch(|| vec![va.vcorr(&vb, mp, CorrMethod::Pearson).dec()])
     }
 }
 impl TreeSys for Pairs {
@@ -508,7 +540,7 @@ fn main() {
     total.merge(explore_tree(&pairs, run.threads));
     total.merge(explore_tree(&bools, run.threads));
     let meta = Meta {
-        rule: "history tree of every word over the value alphabet (numeric), over {null,0,1,3}^2 (two-series and masked aggregations), over {null,T,F} (any/all); every aggregation, every min_periods 0..=len+1, element types f64/f32/i32/Option<f64>/Option<i32>, sources owned / borrowed iterator / option view; compared with two-pass textbook definitions on the non-null sub-list, plus the permutation relation agg(word) == agg(sorted word) for the symmetric ones. Non-trivial = word with a non-null element. Also (DESIGN 5.15, 5.16): infinite observations for counts, positions and extrema (numeric-inf); NaN kinds (numeric-nan-kinds); sources of unknown announced length (filtered: hint (0,n); flat-mapped: hint (0,None)); i32 series whose sum leaves the type (numeric-wide-sum, aggregations with an f64 result).".into(),
+        rule: "history tree of every word over the value alphabet (numeric), over {null,0,1,3}^2 (two-series and masked aggregations), over {null,T,F} (any/all); every aggregation, every min_periods 0..=len+1, element types f64/f32/i32/Option<f64>/Option<i32>, sources owned / borrowed iterator / option view; compared with two-pass textbook definitions on the non-null sub-list, plus the permutation relation agg(word) == agg(sorted word) for the symmetric ones. Non-trivial = word with a non-null element. Also (DESIGN 5.15, 5.16): infinite observations for counts, positions and extrema (numeric-inf); NaN kinds (numeric-nan-kinds); sources of unknown announced length (filtered: hint (0,n); flat-mapped: hint (0,None)); i32 series whose sum leaves the type (numeric-wide-sum, aggregations with an f64 result). Round 8 (DESIGN 5.17): the convenience wrapper vcorr(other, min_periods: Option, Pearson) for omitted min_periods and 0..=len+1.".into(),
         bounds: json!({"numeric": {"alphabet": json_word(&num.alpha), "L": num.max_len}, "pairs": {"alphabet": json_word(&pairs.alpha), "L": pairs.max_len}, "bools": {"L": bools.max_len},
                        "min_periods": "0..=len+1"}),
         assumptions: vec![
